@@ -116,7 +116,10 @@ def multistore_signature(teal_unoptimised: str) -> bool:
     """Trigger shape of the known optimiser defect (known_findings: O3.4): a slot whose single load directly follows
     a store of it, while the slot is also stored elsewhere."""
     from spec import avm
-    ops = avm.parse(teal_unoptimised).ops
+    try:
+        ops = avm.parse(teal_unoptimised).ops
+    except ValueError:
+        return False
     loads, stores, adjacent = {}, {}, set()
     for i, (m, im, _) in enumerate(ops):
         if m == "load":
